@@ -106,7 +106,8 @@ mod util;
 mod voronoi;
 
 pub use voronoi::{
-    convex_cell::Vertex, half_space::HalfSpace, integrals, ConvexCell, Dimensionality, Voronoi,
+    convex_cell::ConvexCellMarker, convex_cell::Vertex, half_space::HalfSpace, integrals, ConvexCell,
+    Dimensionality, Voronoi,
     VoronoiCell, VoronoiFace, VoronoiIntegrator,
 };
 #[cfg(any(kani, meshless_voro_verif))]
